@@ -151,3 +151,50 @@ func ZZ_C06_FUN_Nested() {
 	zzv.Assert(v == zzAggregateRef(t1, []int{r1, r2}), "FUN.nested_is_compositional")
 	zzv.Assert(zzv.And(v >= 0, v <= 255), "FUN.nested_range_0_255")
 }
+
+var zzPidGains = [][3]float64{{-0.05, -0.005, -0.005}, {-0.05, -0.005, -0.006}, {-0.005, -0.005, -0.006}, {0.3, 0.02, 0.005}, {-0.3, -0.02, -0.005}, {-0.05, 0, 0}, {0, -0.005, 0}, {0, 0, -0.006}}
+
+// PID curve: the real PidSpeedCurve.Evaluate and util.PidLoop.Loop, second evaluation after an
+// arbitrary elapsed time (including none), from arbitrary bounded PID memory.
+func ZZ_C06_PID_Range() {
+	g := zzPidGains[zzv.Choice("gains", len(zzPidGains))]
+	s := zzRegisterSensor("zzs", 0)
+	cfg := configuration.CurveConfig{ID: "zzpid", PID: &configuration.PidCurveConfig{Sensor: "zzs", SetPoint: 60, P: g[0], I: g[1], D: g[2]}}
+	c, _ := NewSpeedCurve(cfg)
+	pc := c.(*PidSpeedCurve)
+	s.val = 50000
+	v0, err0 := c.Evaluate() // first call only arms the clock
+	zzv.Assert(zzv.And(err0 == nil, v0 == 0), "PID.first_evaluation_is_zero")
+
+	e0 := zzv.Float64("prevError")
+	in := zzv.Float64("integral")
+	zzv.Assume(zzv.And(e0 >= -1e6, e0 <= 1e6))
+	zzv.Assume(zzv.And(in >= -1e6, in <= 1e6))
+	pc.pidLoop.ZZSetState(e0, in)
+	m := zzv.Float64("measured")
+	zzv.Assume(zzv.And(m >= -1e9, m <= 1e9))
+	s.val = m
+	sec := zzv.Int("dtSec")
+	ms := zzv.Int("dtMs")
+	zzv.Assume(zzv.And(sec >= 0, sec <= 3600))
+	zzv.Assume(zzv.And(ms >= 0, ms <= 999))
+	zzv.ClockStep(sec, ms)
+
+	v, err := c.Evaluate()
+	zzv.Record("value", v)
+	zzv.Assert(err == nil, "PID.no_error")
+	zzv.Assert(zzv.And(v >= 0, v <= 255), "PID.range_0_255")
+	zzv.Assert(c.CurrentValue() == v, "PID.current_value_updated")
+}
+
+// a sensor read error is propagated, the curve keeps its previous value
+func ZZ_C06_PID_SensorError() {
+	s := zzRegisterSensor("zzs", 0)
+	c, _ := NewSpeedCurve(configuration.CurveConfig{ID: "zzpid", PID: &configuration.PidCurveConfig{Sensor: "zzs", SetPoint: 60, P: -0.05, I: -0.005, D: -0.005}})
+	prev := zzv.Int("previousValue")
+	c.(*PidSpeedCurve).Value = prev
+	s.err = errZZ
+	v, err := c.Evaluate()
+	zzv.Assert(err != nil, "PID.sensor_error_is_reported")
+	zzv.Assert(v == prev, "PID.keeps_previous_value_on_error")
+}
